@@ -65,7 +65,9 @@ static const int ac_s[4] = {0, AC_S1, AC_S2, AC_S3};
 int ac_must_accept;
 void ac_longjmp_stub(JanetAssembler *a) {
     __CPROVER_assert(!ac_must_accept, "codec: the assembler accepts every instruction the disassembler prints");
+#ifndef AC_RT
     REACH("the assembler raises");
+#endif
     __CPROVER_assume(0);
 }
 /* typed blocks with the layout of JanetTupleHead followed by exactly n elements (typed so that element types stay concrete) */
@@ -89,16 +91,17 @@ static JanetAssembler ac_a, ac_p;
 static JanetFuncDef ac_def, ac_pdef;
 static int32_t ac_sc0;
 
-static int ac_pick(void) {
-    int k = nd_int();
-    __CPROVER_assume(k >= 0 && k < AC_NOPS);
+/* The opcode is chosen by the solver among the opcodes of the shape, but each body runs with a CONSTANT table index so that the
+ * shape switch of read_instruction is decided during symbolic execution (a symbolic shape makes the paths of the other shapes
+ * read past the operand tuple and sends symbolic execution into the recursive type-set parser). */
+static void ac_retype(void) {
 #ifdef AC_RETYPE
     /* no opcode of the pinned instruction set has this shape: give it to one opcode to exercise the code of both directions */
     janet_instructions[AC_RETYPE] = AC_SHAPE;
 #endif
-    __CPROVER_assume(janet_instructions[janet_ops[k].opcode] == AC_SHAPE);
-    return k;
 }
+#define AC_FOR_OPCODES_OF_SHAPE(body) do { ac_retype(); int kk = nd_int(); \
+        for (int k = 0; k < AC_NOPS; k++) if (kk == k && janet_instructions[janet_ops[k].opcode] == AC_SHAPE) body(k); } while (0)
 static void ac_setup(void) {
     ac_sc0 = nd_i32();
     __CPROVER_assume(ac_sc0 >= 0);                       /* slotcount starts as arity + vararg */
@@ -140,8 +143,7 @@ static void ac_check_tuple(Janet r, int k, uint32_t w, const char *unused) {
 }
 
 /* ---------------- encode (asm side) ---------------- */
-void h_enc(void) {
-    int k = ac_pick();
+static void ac_enc(const int k) {
     ac_setup();
     int32_t len = nd_i32();
     __CPROVER_assume(len >= 0 && len <= 5);
@@ -177,6 +179,7 @@ void h_enc(void) {
         __CPROVER_assert(t[i].as.number == d[i], "codec: disassembling the assembled word gives back the operands");
     REACH("read_instruction returns a word");
 }
+void h_enc(void) { AC_FOR_OPCODES_OF_SHAPE(ac_enc); }
 
 /* ---------------- decode (disasm side) ---------------- */
 static uint32_t ac_word(int k) {
@@ -184,33 +187,40 @@ static uint32_t ac_word(int k) {
     __CPROVER_assume((w & 0x7F) == (uint32_t) janet_ops[k].opcode);
     return w;
 }
-void h_dec(void) {
-    int k = ac_pick();
+static void ac_dec(const int k) {
     uint32_t w = ac_word(k);
     Janet r = janet_asm_decode_instruction(w);
     ac_check_tuple(r, k, w, "");
     REACH("janet_asm_decode_instruction returns");
 }
+void h_dec(void) { AC_FOR_OPCODES_OF_SHAPE(ac_dec); }
 
 /* ---------------- decode then encode ---------------- */
-void h_rt(void) {
-    int k = ac_pick();
+static void ac_rt(const int k) {
     ac_setup();
     uint32_t w = ac_word(k);
 #ifdef AC_RT_PRE
     __CPROVER_assume(AC_RT_PRE);          /* restricted variant; the restriction is the unit's bound */
 #endif
     Janet r = janet_asm_decode_instruction(w);
-    __CPROVER_assert(r.type == JANET_TUPLE, "codec: a known opcode is disassembled to a tuple");
+    ac_check_tuple(r, k, w, "");
     const Janet *t = (const Janet *) r.as.pointer;
-    /* the assembler looks the mnemonic up by name; asm.optable shows that this finds the entry the disassembler used */
-    __CPROVER_assert(t[0].as.pointer == (void *) janet_ops[k].name, "codec: first element is the mnemonic of the opcode in bits 0-6");
+    /* The printed tuple is handed to the assembler as an equal copy with concrete element types: ac_check_tuple has just asserted
+     * that it has AC_N + 1 elements, the mnemonic first (the assembler finds it by name: asm.optable) and numbers after it. */
+    Janet *argt = ac_alloc_tuple(AC_N + 1);
+    argt[0].type = JANET_SYMBOL;
+    argt[0].as.pointer = (void *) janet_ops[k].name;
+    for (int i = 1; i <= AC_N; i++) { argt[i].type = JANET_NUMBER; argt[i].as.number = t[i].as.number; }
     ac_must_accept = 1;
-    uint32_t w2 = read_instruction(&ac_a, &janet_ops[k], t);
+    uint32_t w2 = read_instruction(&ac_a, &janet_ops[k], argt);
     ac_must_accept = 0;
-    __CPROVER_assert(w2 == (w & ~0x80u), "codec: assembling the disassembled instruction gives back the word");
+    /* bits covered by no field of the shape are never read by the interpreter (only JINT_0 has any: its upper 24 bits) */
+    uint32_t used = 0x7Fu;
+    for (int i = 1; i <= AC_N; i++) used |= ac_mask(ac_w[i]) << (8 * i);
+    __CPROVER_assert(w2 == (w & used), "codec: assembling the disassembled instruction gives back the word (opcode and every operand field)");
     REACH("decode then encode returns");
 }
+void h_rt(void) { AC_FOR_OPCODES_OF_SHAPE(ac_rt); }
 
 /* ---------------- the mnemonic table ---------------- */
 static int ac_strcmp(const char *a, const char *b) {
